@@ -12,11 +12,11 @@ from checks import CHECKS
 done = set()
 for pid, spec in CHECKS.items():
     for run in spec["runs"]:
-        key = (spec["engine"], bool(run.get("race")))
+        key = (run.get("engine", spec["engine"]), bool(run.get("race")))
         if key in done:
             continue
         done.add(key)
-        b, err = orchestrate.build(spec["engine"], key[1], spec.get("requires"))
+        b, err = orchestrate.build(key[0], key[1], spec.get("requires"))
         if b is None:
             print("setup: build failed for", key); print(err[-3000:]); sys.exit(1)
 print("setup ok:", sorted(done))
